@@ -2,6 +2,7 @@ package kernel
 
 import (
 	"crypto/sha256"
+	"encoding/base64"
 	"encoding/hex"
 	"fmt"
 	"sort"
@@ -14,6 +15,20 @@ import (
 // DecodeMsgs turns the recorded JSON into messages; an undecodable message is an infrastructure error.
 func DecodeMsgs(tx *Tx) ([]sdk.Msg, error) {
 	var msgs []sdk.Msg
+	if len(tx.Bin) > 0 {
+		for _, b64 := range tx.Bin {
+			bz, err := base64.StdEncoding.DecodeString(b64)
+			if err != nil {
+				return nil, err
+			}
+			var m sdk.Msg
+			if err := Enc().Marshaler.UnmarshalInterface(bz, &m); err != nil {
+				return nil, err
+			}
+			msgs = append(msgs, m)
+		}
+		return msgs, nil
+	}
 	for _, raw := range tx.Msgs {
 		m, err := MsgFromJSON(raw)
 		if err != nil {
